@@ -434,8 +434,13 @@ def run_c17(prop, tier, seed, t0):
     jobs += mj3
     # valgrind memcheck on the plain release binary: the whole single-lie enumeration plus seeded schedules
     jobs += buf_valgrind("faults", seed + 4, 8 if quick else 16, ["--count", "300" if quick else "20000"], "valgrind-flt", crash="violation")
+    # owner whose destructor panics, iterator panicking in the middle of extend: completely under Miri as well
+    mj4 = buf_miri("faults", [["--seed", str(seed), "--shard", str(k), "--nshards", "4", "--count", "0", "--entry-from", "36", "--entry-to", "38", "--no-short"] for k in range(4)], "miri-panic", seed, ignore_leaks=False)
+    for j in mj4:
+        j.crash = "violation"
+    jobs += mj4
     rule = ("fault injection: a Buf written in safe code lies according to a plan (which trait call number misreports: remaining +1/+9/-1/usize::MAX/0, chunk shorter/empty/a different valid slice, advance ignored/halved/doubled, or panics; chunks_vectored returning more than dst.len(); a call budget makes every schedule terminate), "
-            "a variant overriding copy_to_slice / try_copy_to_slice to return without filling dst, plus AsRef owners answering differently per call / panicking and iterators with wrong size_hints. 36 crate entry points plus serde's visit_seq (lying SeqAccess::size_hint, injected element errors) consume them (every getter row, copy_to_slice/bytes incl. Chain/Take, chunks_vectored via Take/Chain, put into Vec/BytesMut/slices/Limit/Chain, Reader, IntoIter, from_owner, Extend/FromIterator, forwarding impls). "
+            "a variant overriding copy_to_slice / try_copy_to_slice to return without filling dst, plus AsRef owners answering differently per call / panicking / panicking in their destructor and iterators with wrong size_hints or panicking in the middle of extend (the handle is read, written and dropped afterwards). 38 crate entry points plus serde's visit_seq (lying SeqAccess::size_hint, injected element errors) consume them (every getter row, copy_to_slice/bytes incl. Chain/Take, chunks_vectored via Take/Chain, put into Vec/BytesMut/slices/Limit/Chain, Reader, IntoIter, from_owner, Extend/FromIterator, forwarding impls). "
             "Exhaustive over entry x first lying call<=6 x 12 lie codes; every getter row on a buffer shorter than the value whose first remaining() over-reports x chunk lie x second-remaining lie; then seeded multi-lie schedules. Oracle: ledger violations, ledger leak balance after unwinding, ASan/LSan, Miri, valgrind memcheck (results are read, so handing out uninitialised bytes is reported), process status; wrong results and panics are allowed. "
             "A cell = (entry point | outcome ok/panic/budget | number of lies).")
     return run_and_finish(prop, tier, seed, t0, jobs, rule, level="fault_enumeration", key="fault_cases",
